@@ -128,4 +128,23 @@ def padRight (k : Kind) (d n : Nat) : List (Option Nat) :=
 def padPositions (k : Kind) (d n : Nat) : List (Option Nat) :=
   padLeft k d n ++ (List.range n).map some ++ padRight k d n
 
+/-! ### `overlap()` with a boundary, `sliding_window_view` -/
+
+/-- `overlap(x, depth=d, boundary=kind)` along one axis (`d > 0`, kind ≠ 'none'): `boundaries` concatenates a pad block
+    of `d` cells on each side (`padL`, `padR`: what periodic / reflect / nearest / constant produce), `overlap_internal`
+    shares `d` cells between neighbouring blocks, and `chunk.trim(x3, 2 * d)` cuts `2 * d` cells off both ends of the
+    whole array — which are exactly the two overlapped pad blocks (`d` pad cells + `d` cells of the neighbouring data
+    block) when every data block has at least `d` cells. -/
+def overlapWithBoundary {α : Type} (d : Nat) (padL padR : List α) (blocks : List (List α)) : List (List α) :=
+  ((overlapBlocks d d (padL :: (blocks ++ [padR]))).drop 1).dropLast
+
+/-- `np.lib.stride_tricks.sliding_window_view(xs, w)` along one axis: the `len(xs) - w + 1` windows -/
+def windows {α : Type} (w : Nat) (xs : List α) : List (List α) :=
+  (List.range (xs.length + 1 - w)).map fun i => (xs.drop i).take w
+
+/-- dask's `sliding_window_view` along one axis: `map_overlap(np…sliding_window_view, depth=(0, w - 1),
+    boundary='none', trim=False)` — every block is extended by the first `w - 1` cells of its right neighbour -/
+def slidingBlocks {α : Type} (w : Nat) (blocks : List (List α)) : List (List (List α)) :=
+  (overlapBlocks 0 (w - 1) blocks).map (windows w)
+
 end Dask.ArrOverlap
